@@ -202,7 +202,10 @@ def main(argv=None):
         ent = {"id": f["id"], "status": f.get("status")}
         w = f.get("witness")
         if w:
-            p = subprocess.run([sys.executable, os.path.join(VERIF, w)] + list(f.get("witness_args", [])), capture_output=True, text=True, cwd=VERIF, timeout=600)
+            wenv = dict(os.environ)
+            if os.environ.get("VERIF_REPO"):
+                wenv["PYTHONPATH"] = os.environ["VERIF_REPO"] + os.pathsep + wenv.get("PYTHONPATH", "")
+            p = subprocess.run([sys.executable, os.path.join(VERIF, w)] + list(f.get("witness_args", [])), capture_output=True, text=True, cwd=VERIF, timeout=600, env=wenv)
             ent["witness_exit"] = p.returncode
             ent["witness_out"] = (p.stdout + p.stderr).strip()[-400:]
             if f.get("status") == "open":
